@@ -59,6 +59,8 @@ type FuncCtx struct {
 	nquery     int
 	resultCells []ssa.Value
 	monitorRecv *monitorCtx
+	inlined     map[string]bool
+	loopsDone   map[*ssa.Function]bool
 	effSrc      map[string][]ssa.Value // per heap key: objects written through (static), for targeted loop havoc
 	effUnknown  map[string]bool
 }
@@ -402,10 +404,19 @@ func (fx *FuncCtx) bumpTop(st *State) {
 
 // ---------------------------------------------------------------- loops
 
-func (fx *FuncCtx) analyseLoops() {
-	fn := fx.fn
-	fx.loopOrd = map[*ssa.BasicBlock]int{}
-	fx.loopBody = map[*ssa.BasicBlock]map[*ssa.BasicBlock]bool{}
+func (fx *FuncCtx) analyseLoops() { fx.analyseLoopsOf(fx.fn) }
+
+func (fx *FuncCtx) analyseLoopsOf(fn *ssa.Function) {
+	if fx.loopOrd == nil {
+		fx.loopOrd = map[*ssa.BasicBlock]int{}
+		fx.loopBody = map[*ssa.BasicBlock]map[*ssa.BasicBlock]bool{}
+		fx.loopsDone = map[*ssa.Function]bool{}
+	}
+	if fx.loopsDone[fn] {
+		return
+	}
+	fx.loopsDone[fn] = true
+	local := map[*ssa.BasicBlock]bool{}
 	for _, b := range fn.Blocks {
 		for _, s := range b.Succs {
 			if s.Dominates(b) {
@@ -415,6 +426,7 @@ func (fx *FuncCtx) analyseLoops() {
 					body = map[*ssa.BasicBlock]bool{s: true}
 					fx.loopBody[s] = body
 				}
+				local[s] = true
 				var stack []*ssa.BasicBlock
 				if !body[b] {
 					body[b] = true
@@ -439,6 +451,9 @@ func (fx *FuncCtx) analyseLoops() {
 	}
 	var heads []hp
 	for h, body := range fx.loopBody {
+		if !local[h] {
+			continue
+		}
 		min := token.Pos(1 << 40)
 		for b := range body {
 			for _, in := range b.Instrs {
@@ -501,6 +516,9 @@ func (fx *FuncCtx) run(st *State, b *ssa.BasicBlock, from *ssa.BasicBlock) {
 			case *ssa.Jump:
 				next = b.Succs[0]
 			case *ssa.Return:
+				if fx.inlineReturn(st, in) {
+					return
+				}
 				fx.doReturn(st, in)
 				return
 			case *ssa.Panic:
@@ -522,6 +540,9 @@ func (fx *FuncCtx) run(st *State, b *ssa.BasicBlock, from *ssa.BasicBlock) {
 
 func (fx *FuncCtx) loopSpec(b *ssa.BasicBlock) (int, *LoopSpec) {
 	k := fx.loopOrd[b]
+	if b.Parent() != fx.fn {
+		return 1000 + k, &LoopSpec{} // loop of an inlined callee: no invariant
+	}
 	if fx.fc.Loops != nil {
 		if ls := fx.fc.Loops[k]; ls != nil {
 			return k, ls
@@ -534,7 +555,7 @@ func (fx *FuncCtx) localsEnv(st *State, cur, old map[string]string) *SpecEnv {
 	env := fx.specEnv(st, cur, old)
 	// named locals (NaiveForm allocs): latest declaration wins for duplicate names
 	for v, cell := range st.cells {
-		if a, ok := v.(*ssa.Alloc); ok && a.Comment != "" && !strings.Contains(a.Comment, "$") && !strings.Contains(a.Comment, " ") {
+		if a, ok := v.(*ssa.Alloc); ok && a.Parent() == fx.fn && a.Comment != "" && !strings.Contains(a.Comment, "$") && !strings.Contains(a.Comment, " ") {
 			if _, isParam := fx.paramVals[a.Comment]; isParam {
 				// shadowing of a parameter by its own cell: the cell holds the current value
 				env.vars["cur$"+a.Comment] = cell
@@ -1038,6 +1059,15 @@ func (fx *FuncCtx) exec(st *State, in ssa.Instruction) {
 		}
 		fx.failf("phi without matching predecessor")
 	case *ssa.Call:
+		if callee := fx.inlinable(st, in.Common(), nil); callee != nil {
+			var args []Val
+			for _, a := range in.Call.Args {
+				args = append(args, fx.val(st, a))
+			}
+			fnv := fx.val(st, in.Call.Value)
+			fx.inlineCall(st, in, callee, fnv, args, false)
+			return
+		}
 		res := fx.call(st, in.Common(), in, in.Pos())
 		if !st.dead {
 			fx.set(st, in, res)
@@ -1057,6 +1087,11 @@ func (fx *FuncCtx) exec(st *State, in ssa.Instruction) {
 		for len(st.defers) > 0 {
 			d := st.defers[len(st.defers)-1]
 			st.defers = st.defers[:len(st.defers)-1]
+			if callee := fx.inlinable(st, d.call, &d.fn); callee != nil {
+				// run the deferred body, then come back to this RunDefers for the remaining ones
+				fx.inlineCall(st, in, callee, d.fn, d.args, true)
+				return
+			}
 			fx.callWith(st, d.call, d.fn, d.args, nil, d.pos)
 			if st.dead {
 				return
